@@ -219,8 +219,10 @@ func genRound2(r *hlib.Run, add func(string, []byte, bool, bool), addLight func(
 	// Every payload gets the Go round trip in both formats; the ones whose stream ends inside a pending
 	// run also go to the Lean model, the xz tool and the Wuffs decoders, and so does every 97th.
 	maxLen := 2000
+	sparse := 23 // of the streams that end with pendingExtra > 0 or low >= 0xFF000000 only, every 23rd goes to the model / external decoders
 	if T {
 		maxLen = 6000
+		sparse = 7
 	}
 	type stream struct {
 		name string
@@ -277,7 +279,7 @@ func genRound2(r *hlib.Run, add func(string, []byte, bool, bool), addLight func(
 			}
 			st := e.State()
 			p := append([]byte(nil), buf...)
-			if interestingEnd(st) && (tailFF(st.Low) > 0 || n%7 == 0) {
+			if interestingEnd(st) && (tailFF(st.Low) > 0 || n%sparse == 0) {
 				nInteresting++
 				add("sweep:"+s.name+":ends-in-run", p, true, tailFF(st.Low) > 1)
 			} else if n%97 == 0 {
